@@ -9,7 +9,7 @@ bvars == <<cfg, S, depth>>
 CONSTANT MaxDepth
 
 Wf1 == [nodes |-> {1}, comp |-> (1 :> 1), data |-> (1 :> 0), edges |-> {}, vol |-> EmptyFn, torder |-> <<1>>]
-Ob(size) == [est |-> 0, dur |-> size, demand |-> 1, ing |-> 1, rate |-> 1] @@ Wf1
+Ob(size) == [est |-> 0, estT |-> 0, dur |-> size, demand |-> 1, ing |-> 1, rate |-> 1] @@ Wf1
 BufCfgs ==
     {[ K |-> 1, mach |-> ("m0" :> [cpu |-> 1, bw |-> 1]),
        arrays |-> 4, maxIngest |-> 1, hotCap |-> hc, coldCap |-> cc, hotRate |-> hr, coldRate |-> cr,
